@@ -173,6 +173,7 @@ fn send_strat() -> impl Strategy<Value = SendSpec> {
 			3 => prop_oneof![Just(-1i64), Just(1), Just(1000), -5000i64..5000].prop_map(TotalSpec::Plus),
 			1 => (2u8..4).prop_map(TotalSpec::Times),
 			1 => amount_strat().prop_map(TotalSpec::Abs),
+			1 => Just(TotalSpec::Zero),
 		],
 		prop_oneof![
 			14 => Just(MetaSpec::Of(u16::MAX)),
@@ -458,7 +459,30 @@ impl Run {
 	fn settle(&mut self, mut exp: Expect) -> CaseResult {
 		let height = self.height();
 		let now = self.now;
-		let r_events = self.sim.c04_flush();
+		let zero_total = self.batch.iter().any(|p| self.model.parts[*p].total == 0);
+		let saved = take_last_panic();
+		let flushed = {
+			let sim = &mut self.sim;
+			std::panic::catch_unwind(std::panic::AssertUnwindSafe(|| sim.c04_flush()))
+		};
+		let r_events = match flushed {
+			Ok(ev) => {
+				set_last_panic(saved);
+				ev
+			},
+			Err(_) => {
+				// `debug_assert!(!first_claimable_htlc)`: an onion announcing a total of zero makes the first part of
+				// a set look like one beyond the total. Release builds fail the HTLC back (the property holds), so
+				// as in `do_claim`: an observation, labelled, and the end of this case.
+				let (msg, loc) = take_last_panic().unwrap_or_default();
+				set_last_panic(saved);
+				if zero_total && msg.contains("first_claimable_htlc") {
+					self.aborted = Some("library-debug-assert:zero-total-first-part");
+					return Ok(());
+				}
+				return Err(fail("panic", format!("after {}: R panicked at {}: {} (batch {:?})", exp.what, loc, msg, self.batch)).with_key(format!("panic@{}", loc)));
+			},
+		};
 		self.tripwire();
 		for ci in 0..self.sim.chans.len() {
 			if !self.closed.contains(&ci) && self.sim.chan_details(R, ci).is_none() {
@@ -484,6 +508,8 @@ impl Run {
 				self.stats.fail_reasons.insert("mpp-timeout");
 			} else if hit == 0 && !must {
 				// production timeout not reached yet: still waiting is allowed
+			} else if hit == 0 && ids.iter().any(|p| self.model.orphaned.contains(p)) {
+				return Err(fail("forgotten-part-not-failed-back", format!("incomplete set {} (parts {:?}), held when a claim_funds call released nothing, is not failed back after {} timer ticks", hex(&h[..4]), ids, MPP_TIMEOUT_TICKS_MAX)));
 			} else if hit == 0 {
 				return Err(fail("mpp-timeout-not-failed", format!("incomplete set {} (parts {:?}) still held after {} timer ticks", hex(&h[..4]), ids, MPP_TIMEOUT_TICKS_MAX)));
 			} else {
@@ -579,6 +605,12 @@ impl Run {
 
 		// failures outside the batch: exactly the expected ones
 		for p in exp.must_fail.iter() {
+			if self.wireable(*p) && !self.failed.contains(p) && self.model.orphaned.contains(p) {
+				return Err(fail(
+					"forgotten-part-not-failed-back",
+					format!("after {}: part#{} {:?} was held when a claim_funds call released nothing; now it has to be failed back (MPP timeout / within HTLC_FAIL_BACK_BUFFER of its expiry at height {}) and R sends no update_fail_htlc", exp.what, p, self.brief(*p), height),
+				));
+			}
 			if self.wireable(*p) && !self.failed.contains(p) {
 				return Err(fail("not-failed-back", format!("after {}: part#{} ({:?}) should have been failed back by R but no update_fail_htlc was sent", exp.what, p, self.brief(*p))).with_key(format!("not-failed-back/{}", exp.what.split(' ').next().unwrap_or(""))));
 			}
@@ -592,10 +624,10 @@ impl Run {
 			if in_shown {
 				return Err(fail("shown-part-failed-before-deadline", format!("after {}: R failed part#{} of a payment shown as claimable at height {} < deadline", exp.what, p, height)));
 			}
-			if self.model.orphaned.remove(p) {
-				continue;
+			// (after a claim attempt that released nothing a library may also give the remaining HTLCs back)
+			if !self.model.orphaned.contains(p) {
+				self.stats.valid_part_rejected += 1;
 			}
-			self.stats.valid_part_rejected += 1;
 			self.model.forget_part(*p);
 		}
 
@@ -777,7 +809,14 @@ fn run_case(c: &Case, ctx: &mut Ctx) -> CaseResult {
 		foreign: None,
 		aborted: None,
 	};
-	let r = run_inner(c, ctx, &mut run);
+	let mut r = run_inner(c, ctx, &mut run);
+	// development aid only (never set by ./check): turn the listed failure keys into labels
+	if let (Err(f), Ok(skip)) = (&r, std::env::var("VERIF_C04_DEV_SKIP")) {
+		if skip.split(',').any(|k| k == f.key) {
+			ctx.label(&format!("dev-skipped:{}", f.key));
+			r = Ok(());
+		}
+	}
 	if ctx.replay {
 		println!("==== steps ====");
 		for l in run.trace.iter() {
@@ -944,7 +983,6 @@ fn run_inner(c: &Case, ctx: &mut Ctx, run: &mut Run) -> CaseResult {
 		}
 	}
 	// every HTLC R still holds must be failed back once it is within HTLC_FAIL_BACK_BUFFER of its expiry
-	let mut forgotten: Option<Failure> = None;
 	if run.foreign.is_none() && run.aborted.is_none() {
 		for _ in 0..8 {
 			let live: Vec<usize> = run.model.live_parts().into_iter().filter(|p| run.wireable(*p) && !run.failed.contains(p)).collect();
@@ -959,30 +997,21 @@ fn run_inner(c: &Case, ctx: &mut Ctx, run: &mut Run) -> CaseResult {
 				break;
 			}
 			let t = run.now as u32;
-			let mut failed = run.mine(n, t);
-			let h = run.height();
-			let orphans: Vec<usize> = run.model.orphaned.iter().cloned().filter(|p| h >= run.model.parts[*p].cltv - HTLC_FAIL_BACK_BUFFER).collect();
-			run.note(format!("[end] mined {} -> height {}; deadline reached for parts {:?}, forgotten parts {:?}", n, h, failed, orphans));
-			let e0 = Expect { must_fail: failed.clone(), may_fail: vec![], fulfill: vec![], claimed: None, what: "final-expiry".into() };
+			let failed = run.mine(n, t);
+			run.note(format!("[end] mined {} -> height {}; deadline reached for parts {:?}", n, run.height(), failed));
+			let e0 = Expect { must_fail: failed, may_fail: vec![], fulfill: vec![], claimed: None, what: "final-expiry".into() };
 			run.settle(e0)?;
-			for p in orphans {
-				if run.wireable(p) && !run.failed.contains(&p) && forgotten.is_none() {
-					// raised only after every other oracle of the case has passed (see the end of this function)
-					forgotten = Some(fail(
-						"forgotten-part-not-failed-back",
-						format!("part#{} {:?} was left over by a claim_funds call that released nothing; at height {} it is within HTLC_FAIL_BACK_BUFFER of its expiry and R still has not failed it back", p, run.brief(p), h),
-					));
-				}
-				run.model.orphaned.remove(&p);
-			}
-			failed.clear();
 			if run.foreign.is_some() || run.aborted.is_some() {
 				break;
 			}
 		}
 	}
 	if let Some(a) = run.aborted {
-		ctx.label(&format!("aborted:{}", a));
+		if a.starts_with("library-debug-assert:") {
+			ctx.label(a);
+		} else {
+			ctx.label(&format!("aborted:{}", a));
+		}
 		return Ok(());
 	}
 	if let Some(f) = &run.foreign {
@@ -991,11 +1020,24 @@ fn run_inner(c: &Case, ctx: &mut Ctx, run: &mut Run) -> CaseResult {
 	}
 
 	// (e) all-or-nothing over the whole history: no payment with both fulfilled and failed parts
-	for set in run.shown_sets.iter() {
+	// (a payment is the set of parts shown in the PaymentClaimable the claim answered; a part that R failed at
+	// its own deadline and that the sender replaced belongs to an earlier, never claimed, showing)
+	for set in run.claimed_sets.iter() {
 		let ful: Vec<&usize> = set.iter().filter(|p| run.fulfilled.contains(p)).collect();
 		let fai: Vec<&usize> = set.iter().filter(|p| run.failed.contains(p)).collect();
 		if !ful.is_empty() && !fai.is_empty() {
-			return Err(fail("all-or-nothing", format!("payment with parts {:?}: R fulfilled {:?} and failed {:?}", set, ful, fai)));
+			return Err(fail("all-or-nothing", format!("claimed payment with parts {:?}: R fulfilled {:?} and failed {:?}", set, ful, fai)));
+		}
+	}
+	for set in run.shown_sets.iter() {
+		if run.claimed_sets.contains(set) {
+			continue;
+		}
+		// shown but never (successfully) claimed as such: its parts may only be fulfilled through a later showing
+		for p in set.iter() {
+			if run.fulfilled.contains(p) && !run.claimed_sets.iter().any(|c| c.contains(p)) {
+				return Err(fail("all-or-nothing", format!("part#{} of the unclaimed payment {:?} was fulfilled", p, set)));
+			}
 		}
 	}
 	for p in run.fulfilled.iter() {
@@ -1039,13 +1081,6 @@ fn run_inner(c: &Case, ctx: &mut Ctx, run: &mut Run) -> CaseResult {
 		}
 	}
 
-	if let Some(f) = forgotten {
-		if std::env::var("VERIF_C04_DEMOTE_FORGOTTEN").is_ok() {
-			ctx.label("demoted:forgotten-part-not-failed-back");
-		} else {
-			return Err(f);
-		}
-	}
 	let st = &run.stats;
 	ctx.label_if(st.claimable_events > 0, "payment-claimable");
 	ctx.label_if(st.multi_part_claimable > 0, "mpp-claimable");
@@ -1081,11 +1116,31 @@ fn do_claim(run: &mut Run, ctx: &mut Ctx, si: usize, h: [u8; 32], known_tlvs: bo
 		run.stats.claim_near_deadline += 1;
 	}
 	let node = run.sim.w.nodes[R].node;
-	if known_tlvs {
-		node.claim_funds_with_known_custom_tlvs(PaymentPreimage(u.preimage));
-	} else {
-		node.claim_funds(PaymentPreimage(u.preimage));
+	let pre = PaymentPreimage(u.preimage);
+	let saved = take_last_panic();
+	let r = std::panic::catch_unwind(std::panic::AssertUnwindSafe(|| {
+		if known_tlvs {
+			node.claim_funds_with_known_custom_tlvs(pre);
+		} else {
+			node.claim_funds(pre);
+		}
+	}));
+	if r.is_err() {
+		let (msg, loc) = take_last_panic().unwrap_or_default();
+		set_last_panic(saved);
+		// LDK has a `debug_assert!(false)` ("...different received total amounts - this should not be reachable")
+		// that is reachable: a shown set loses a part at its deadline, a new part joins without completing it.
+		// Release builds handle the situation (nothing is released), so this is an observation about the
+		// library's assertion, not a verdict on the property: label it and end the case here (the node was
+		// unwound in the middle of a call).
+		let mixed = run.model.sets.get(&h).map(|s| s.shown.as_ref().map(|sh| sh.parts != s.parts.iter().map(|(i, _)| *i).collect::<Vec<_>>()).unwrap_or(false)).unwrap_or(false);
+		if mixed && msg.contains("assertion failed: false") && loc.contains("channelmanager.rs") {
+			run.aborted = Some("library-debug-assert:claim-mixed-total-value-received");
+			return Ok(());
+		}
+		return Err(fail("panic", format!("claim_funds panicked at {}: {}", loc, msg)).with_key(format!("panic@{}", loc)));
 	}
+	set_last_panic(saved);
 	run.sim.rec(SEvent::Api { node: R, what: format!("claim_funds hash {} known_tlvs={}", hex(&h[..4]), known_tlvs), ok: true, detail: String::new() });
 	run.sim.drain(R);
 	let out = run.model.on_claim(&h, known_tlvs);
